@@ -11,6 +11,7 @@ def run(ctx):
           'pkg/northbound/gnmi/v2/zz_verif_c14.go': 'c14/zz_verif_c14_set.go'}
     sp = {'groupslen': 3, 'adminlen': 3} if ctx.tier == 'quick' else {'groupslen': 4, 'adminlen': 4}
     hs.append(H('VerifC14Set', 'pkg/northbound/gnmi/v2', nb, unwind=14, opts={'params': sp}, timeout_ms=120000))
+    hs.append(H('VerifC14List', 'pkg/northbound/gnmi/v2', nb, unwind=14, opts={'params': {'groupslen': 5 if ctx.tier == 'quick' else 6}}, timeout_ms=120000))
     if ctx.only:
         hs = [h for h in hs if h.entry in ctx.only]
     driver.check_harnesses(ctx, hs)
